@@ -64,8 +64,13 @@ class HaversineRoadNetwork(RoadNetwork):
         return H3Ops.great_circle_distance(origin, destination)
 
     def link_from_link_id(self, link_id: LinkId) -> Optional[Link]:
-        src, dst = h_ops.link_id_to_geodis(link_id)
-        dist = self.distance_by_geoid_km(src, dst)
+        try:
+            src, dst = h_ops.link_id_to_geodis(link_id)
+            dist = self.distance_by_geoid_km(src, dst)
+        except (TypeError, ValueError):
+            # not a [GeoId]-[GeoId] pair of valid cells: there is no such link (callers handle None; an
+            # exception raised from here would abort the whole simulation step)
+            return None
         link = Link(link_id, src, dst, dist, self._AVG_SPEED_KMPH)
         return link
 
